@@ -104,6 +104,11 @@ def try_shrink(P, case, kind, budget=200):
                 break
     return cur
 
+_PAR_PROP = None
+def _par_run(case):
+    obs = _PAR_PROP.run(case)
+    return obs, _PAR_PROP.oracle(case, obs)
+
 def run_check(P, tier="quick", seed=0, max_search_s=None):
     t0 = time.time()
     rng = random.Random(seed)
@@ -126,15 +131,29 @@ def run_check(P, tier="quick", seed=0, max_search_s=None):
     # 2. run the implementation, direct oracle
     seen, records = set(), []
     gen_errors = 0
+    par = getattr(P, "parallel", 0) if tier == "thorough" else 0
+    todo = []
     for src, it in (("corpus", corpus_cases(P.pid)), ("gen", P.cases(rng, tier))):
         for case in it:
             k = _case_key(case)
             if k in seen:
                 continue
             seen.add(k)
+            if par:
+                todo.append((case, k))
+                continue
             obs = P.run(case)
             orc = P.oracle(case, obs)
             records.append([case, obs, orc, k])
+    if par:
+        # implementation runs that are dominated by per-case process start-up (forked supervision of C code):
+        # a pool of forked workers, order preserved, every case still supervised by its own deadline inside P.run
+        import multiprocessing
+        global _PAR_PROP
+        _PAR_PROP = P
+        with multiprocessing.get_context("fork").Pool(par) as pool:
+            for (case, k), (obs, orc) in zip(todo, pool.imap(_par_run, [c for c, _ in todo], chunksize=16)):
+                records.append([case, obs, orc, k])
     extra = P.finish(records)
     for (i, kind, msg) in extra:
         if records[i][2] is None:
